@@ -321,6 +321,36 @@ def exec_op(ctx: Ctx, op: dict, rec: dict) -> Any:
                                           {"id": 2, "name": "v", "type": "string", "required": False}])
         res["expect_reject"] = True
         return t.append_records([{"tag": op["tag"], "v": "x"}], schema=bad)
+    if kind == "requeue_fail":
+        # a "restore" gone wrong: a data file that retained snapshots reference is queued AGAIN with append_files(),
+        # together with a file that does not exist; the second call raises and the transaction is rolled back (or left
+        # through its context manager). Nothing this transaction did may touch the re-queued file.
+        from datashard import DataFile, FileFormat
+        st = w.state(deep=True, rows=False)
+        pool = sorted({p for s in (st.snaps if st else []) for p in s.files})
+        p = _resolve_index(pool, op.get("k", 0))
+        if p is None:
+            res["noop"] = True
+            return None
+        res["expect_reject"] = True
+        res["requeued"] = p
+        df = DataFile(file_path="/" + p, file_format=FileFormat.PARQUET, partition_values={}, record_count=1,
+                      file_size_in_bytes=1)
+        gone = DataFile(file_path=f"/data/gone_{op['tag']}.parquet", file_format=FileFormat.PARQUET, partition_values={},
+                        record_count=1, file_size_in_bytes=1)
+        if op.get("with"):
+            with t.new_transaction() as tx:
+                tx.append_files([df])
+                tx.append_files([gone])
+            return True
+        tx = t.new_transaction().begin()
+        try:
+            tx.append_files([df])
+            tx.append_files([gone])
+        except Exception:
+            tx.rollback()
+            raise
+        return tx.commit()
     if kind == "delete_file":
         st = w.state(deep=True, rows=False)
         cur = st.current() if st else None
